@@ -42,6 +42,7 @@ def outcome_terms(o: Outcome) -> List[Term]:
     ts.extend(o.effects)
     ts.extend(t for t, _ in o.guards)
     ts.extend(o.asserts)
+    ts.extend(t for t in o.trace if t not in o.effects)
     return ts
 
 
